@@ -1,7 +1,8 @@
 SPECIFICATION Spec
 CONSTANTS
   Runs = {1}
-  Params <- Params_B
+  Params <- Params_D
+  OrderKinds = {"balance", "trade"}
 INVARIANTS TypeOK PrefixAlways CompleteInOrder FeedInOrder SentOK AppliedOK SummaryOK
-PROPERTIES Isolation Monotone
+PROPERTIES Isolation Monotone 
 CHECK_DEADLOCK FALSE
